@@ -39,6 +39,7 @@ type SiteSpec struct {
 	Ordinal  int    // -1 = every site
 	Requires []*Clause
 	IsSend   bool
+	InPkg    string // everywhere-clauses: restrict to calls made by functions of this package
 	ValueOf  string // send: instead of an ordinal, "the send whose value is the result of a call to this function"
 }
 
@@ -90,6 +91,7 @@ type Decl struct {
 }
 
 type Contracts struct {
+	Everywhere []*SiteSpec // site clauses that apply in every function
 	Decls    []*Decl
 	DeclBy   map[string]*Decl
 	Ghosts   []*Decl
@@ -216,6 +218,30 @@ func (c *Contracts) loadForm(file string, f *SX) error {
 			return errAt(file, f, "macro: (macro (name params...) body)")
 		}
 		c.Macros[f.List[1].List[0].Atom] = f
+		return nil
+	case "everywhere":
+		// (everywhere (callsite "callee" (requires label (props ..) expr) ...)): an obligation at EVERY call of callee that is executed
+		// while verifying any function (also inside inlined helpers that have no contract of their own); names of the expression
+		// are resolved in the function that contains the call
+		inPkg := ""
+		for _, e := range f.List[1:] {
+			if e.Head() == "in" && len(e.List) == 2 {
+				inPkg = e.List[1].Atom // only calls made by functions of this package (name as in function names: "main", "store")
+				continue
+			}
+			if e.Head() != "callsite" || len(e.List) < 3 {
+				return errAt(file, e, "everywhere: (everywhere (callsite \"callee\" (requires ...)))")
+			}
+			ss := &SiteSpec{Ordinal: -1, Callee: e.List[1].Atom, InPkg: inPkg}
+			for _, se := range e.List[2:] {
+				cl, err := parseClause(file, "requires", se)
+				if err != nil {
+					return err
+				}
+				ss.Requires = append(ss.Requires, cl)
+			}
+			c.Everywhere = append(c.Everywhere, ss)
+		}
 		return nil
 	case "structural":
 		// (structural regex-literal "pkg.var" "literal" (props ...)): a fact about the program text, checked on the SSA without a solver
